@@ -4,10 +4,22 @@ copy, mappers, dict operations, and serialises: results, exception classes, and
 after every step the projection of every live object (fields read back, whether
 '_hash_value' is in the instance __dict__, the cached hash).  Raw 64-bit hashes
 and trees are interned per trace into small ids (first occurrence order).
+
+Every trace runs in a forked child of the worker process.  The worker itself only
+imports pymbolic and creates the user classes - it never hashes or compares an
+expression - so every trace starts from the pristine interpreter state: whatever
+pymbolic remembers per class (or per module) about earlier use is in its initial
+state, and the order in which a history first uses the classes is the order pymbolic
+sees.  Objects that "arrive from another interpreter" are built (and, if the history
+says so, hashed) and pickled by a helper interpreter running with a different
+PYTHONHASHSEED, and unpickled here.
 Nothing in here judges anything."""
 from __future__ import annotations
 
 import json
+import os
+import subprocess
+import sys
 import warnings
 from fractions import Fraction
 
@@ -68,8 +80,47 @@ def _classes():
 
         UInit = expr_dataclass(init=False)(type("UInit", (Expression,), {
             "__annotations__": {"u": object, "v": object}, "__init__": uinit_init}))
+        # three-level hierarchies
+        from pymbolic.geometric_algebra.primitives import MultiVectorVariable
+        UPlain2 = type("UPlain2", (UPlain,), {})
+
+        def leggrand_init(self, u, v, w):
+            UPlain.__init__(self, u, v)
+            self.w = w
+
+        ULegGrand = type("ULegGrand", (UPlain,), {
+            "init_arg_names": ("u", "v", "w"),
+            "__init__": leggrand_init,
+            "__getinitargs__": lambda self: (self.u, self.v, self.w)})
+
+        def leggrandd_init(self, u, v, w, x):
+            UChild.__init__(self, u, v, w)
+            self.x = x
+
+        ULegGrandD = type("ULegGrandD", (UChild,), {
+            "init_arg_names": ("u", "v", "w", "x"),
+            "__init__": leggrandd_init,
+            "__getinitargs__": lambda self: (self.u, self.v, self.w, self.x)})
+        ULegChildPlain = type("ULegChildPlain", (ULegChild,), {})
+
+        def mvtag_init(self, name, tag):
+            MultiVectorVariable.__init__(self, name)
+            self.tag = tag
+
+        UMVTag = type("UMVTag", (MultiVectorVariable,), {
+            "init_arg_names": ("name", "tag"),
+            "__init__": mvtag_init,
+            "__getinitargs__": lambda self: (self.name, self.tag)})
     tab = {"URoot": URoot, "UChild": UChild, "ULeg": ULeg, "ULegChild": ULegChild,
-           "UPlain": UPlain, "UVar": UVar, "UTagVar": UTagVar, "UInit": UInit}
+           "UPlain": UPlain, "UVar": UVar, "UTagVar": UTagVar, "UInit": UInit,
+           "UPlain2": UPlain2, "ULegGrand": ULegGrand, "ULegGrandD": ULegGrandD,
+           "ULegChildPlain": ULegChildPlain, "UMVTag": UMVTag}
+    # pickle finds classes by module attribute
+    for name, c in tab.items():
+        c.__module__ = __name__
+        c.__qualname__ = name
+        globals()[name] = c
+    tab["MultiVectorVariable"] = MultiVectorVariable
     for name in ("Variable Wildcard DotWildcard StarWildcard FunctionSymbol Leaf AlgebraicLeaf "
                  "Call CallWithKwargs Subscript Lookup Sum Product Min Max BitwiseOr BitwiseXor "
                  "BitwiseAnd LogicalOr LogicalAnd Slice Quotient FloorDiv Remainder QuotientBase "
@@ -80,7 +131,9 @@ def _classes():
     return _CLS
 
 
-LEGACY_ARGS = {"ULeg": ("u", "v"), "ULegChild": ("u", "v", "w")}
+LEGACY_ARGS = {"ULeg": ("u", "v"), "ULegChild": ("u", "v", "w"), "ULegGrand": ("u", "v", "w"),
+               "ULegGrandD": ("u", "v", "w", "x"), "ULegChildPlain": ("u", "v", "w"),
+               "UMVTag": ("name", "tag")}
 
 
 # ------------------------------------------------------------ values <-> JSON
@@ -189,6 +242,7 @@ class _Trace:
         self.trees = []
         self.tids = {}
         self.d = {}
+        self.blobs = {}
 
     def hid(self, raw):
         if raw not in self.hids:
@@ -226,6 +280,7 @@ def _rebuild_mapper():
         def map_variable(self, expr, *args, **kwargs):
             return type(expr)(*[getattr(expr, n) for n in
                                 (["name", "tag"] if hasattr(expr, "tag") else ["name"])])
+        map_multivector_variable = map_variable
     return Rebuild()
 
 
@@ -242,6 +297,13 @@ def _step(tr, ev):
     b = tr.objs[j - 1] if 1 <= j <= n else None
     try:
         if op == "New":
+            if ev["md"]:
+                import pickle
+                blob = tr.blobs[_blob_key(ev["spec"], ev["md"])]
+                if "err" in blob:
+                    return _res("err", exc=blob["err"])
+                tr.objs.append(pickle.loads(bytes.fromhex(blob["hex"])))
+                return _res("new")
             tr.objs.append(build(ev["spec"]))
             return _res("new")
         if op == "Hash":
@@ -257,7 +319,11 @@ def _step(tr, ev):
             delattr(a, ev["fn"])
             return _res("ok")
         if op == "Copy":
-            c = copy.copy(a) if ev["md"] == "copy" else copy.deepcopy(a)
+            if ev["md"] == "pickle":
+                import pickle
+                c = pickle.loads(pickle.dumps(a))
+            else:
+                c = copy.copy(a) if ev["md"] == "copy" else copy.deepcopy(a)
             if c is a:
                 return _res("same")
             tr.objs.append(c)
@@ -303,15 +369,116 @@ def _step(tr, ev):
         return _res("err", exc=type(exc).__name__)
 
 
-def drive_case(case, extra):
-    """case = {"id", "sweep", "hist": [events]} -> recorded trace."""
+# ------------------------------------------------- the other interpreter process
+def _blob_key(spec, md):
+    return md + "|" + json.dumps(spec, sort_keys=True, separators=(",", ":"))
+
+
+def _nested_nodes(o, top=True):
+    """expression nodes nested in the fields of o (not o itself), innermost first"""
+    import pymbolic.primitives as p
+    from immutabledict import immutabledict
+    out = []
+    if isinstance(o, p.Expression):
+        for v in list(o.__dict__.values()):
+            out += _nested_nodes(v, False)
+        if not top:
+            out.append(o)
+    elif isinstance(o, tuple):
+        for v in o:
+            out += _nested_nodes(v, False)
+    elif isinstance(o, (dict, immutabledict)):
+        for v in o.values():
+            out += _nested_nodes(v, False)
+    return out
+
+
+def foreign_main():
+    """Runs in the helper interpreter (other PYTHONHASHSEED): one JSON request per
+    line {"spec", "md"} -> {"hex": pickle of the object built from spec, after
+    hash(obj) for md = "pkh" / hash(every nested node) for md = "pkc"} or {"err"}."""
+    import pickle
+    warnings.simplefilter("ignore")
+    _classes()
+    for line in sys.stdin:
+        req = json.loads(line)
+        try:
+            o = build(req["spec"])
+            if req["md"] == "pkh":
+                hash(o)
+            elif req["md"] == "pkc":
+                for c in _nested_nodes(o):
+                    hash(c)
+            ans = {"hex": pickle.dumps(o).hex()}
+        except Exception as exc:  # noqa: BLE001
+            ans = {"err": type(exc).__name__}
+        sys.stdout.write(json.dumps(ans) + "\n")
+        sys.stdout.flush()
+
+
+_HELPER = None
+_BLOBS = {}
+
+
+def _foreign_blob(spec, md):
+    """Ask the helper interpreter (started once per worker, lazily)."""
+    global _HELPER
+    key = _blob_key(spec, md)
+    if key in _BLOBS:
+        return key, _BLOBS[key]
+    if _HELPER is None:
+        mine = os.environ.get("PYTHONHASHSEED", "")
+        env = dict(os.environ, PYTHONHASHSEED="4242" if mine != "4242" else "4243",
+                   PYTHONPATH=os.pathsep.join(p for p in sys.path if p))
+        _HELPER = subprocess.Popen(
+            [sys.executable, "-W", "ignore", "-c",
+             "from harness import c01drv; c01drv.foreign_main()"],
+            stdin=subprocess.PIPE, stdout=subprocess.PIPE, text=True, env=env)
+    _HELPER.stdin.write(json.dumps({"spec": spec, "md": md}) + "\n")
+    _HELPER.stdin.flush()
+    line = _HELPER.stdout.readline()
+    if not line:
+        raise RuntimeError("C01 driver: the helper interpreter died")
+    _BLOBS[key] = json.loads(line)
+    return key, _BLOBS[key]
+
+
+def _drive_inproc(case, blobs):
     tr = _Trace()
+    tr.blobs = blobs
     evs = []
     with warnings.catch_warnings():
         warnings.simplefilter("ignore")
-        _classes()      # an import error of pymbolic is a machinery failure, not an observation
         for ev in case["hist"]:
             r = _step(tr, ev)
             r["proj"] = tr.proj()
             evs.append({"ev": ev, "r": r})
     return {"id": case["id"], "sweep": case["sweep"], "trees": tr.trees, "evs": evs}
+
+
+def drive_case(case, extra):
+    """case = {"id", "sweep", "hist": [events]} -> recorded trace (run in a forked child)."""
+    with warnings.catch_warnings():
+        warnings.simplefilter("ignore")
+        _classes()      # an import error of pymbolic is a machinery failure, not an observation
+    blobs = dict(_foreign_blob(ev["spec"], ev["md"])
+                 for ev in case["hist"] if ev["op"] == "New" and ev["md"])
+    rfd, wfd = os.pipe()
+    pid = os.fork()
+    if pid == 0:
+        code = 1
+        try:
+            os.close(rfd)
+            data = json.dumps(_drive_inproc(case, blobs)).encode()
+            with os.fdopen(wfd, "wb") as f:
+                f.write(data)
+            code = 0
+        finally:
+            os._exit(code)
+    os.close(wfd)
+    with os.fdopen(rfd, "rb") as f:
+        data = f.read()
+    _, status = os.waitpid(pid, 0)
+    if status != 0 or not data:
+        raise RuntimeError(f"C01 driver: the child running case {case['id']} ended with status {status}")
+    return json.loads(data)
